@@ -66,6 +66,11 @@ def Cfg.emptyDecodeFails (c : Cfg) : Bool :=
   c.compression == n!"gzip" || c.compression == n!"parallelgzip" || c.compression == n!"bzip2" ||
   c.compression == n!"parallelbzip2" || c.encryption != [] || c.signature != []
 
+/-- Restoring an empty record through the archive interface fails: as above, and additionally
+    under lz4, whose reader's `Close` reports `EOF` for the empty stream (a handle's `Read`
+    takes that for the end of the file, `Restore`/`Fetch` return it as an error) -/
+def Cfg.emptyRestoreFails (c : Cfg) : Bool := c.emptyDecodeFails || c.compression == n!"lz4"
+
 def lookupTable (tab : List (Name × Name)) (k : Name) : Option Name :=
   (tab.find? (fun kv => kv.1 == k)).map (·.2)
 
